@@ -172,7 +172,7 @@ _LOGIC = ('numpy.logical_and', 'numpy.logical_or', 'numpy.logical_not', 'numpy.b
           'numpy.all', 'numpy.any', 'op.and_', 'op.or_', 'op.invert')
 
 
-def deliberate_rejection(node, e):
+def deliberate_rejection(node, e, tag=''):
     '''nutils documents / spells out a handful of element-type restrictions (complex numbers are not
     ordered, logic is boolean only, ...). A loud build-time refusal of exactly these is not counted
     as a violation (the statement is about operations that are supported); it is counted and listed.
@@ -193,12 +193,31 @@ def deliberate_rejection(node, e):
         ax = kw.get('axis') or (node[2][1] if len(node[2]) > 1 else None)
         if ax is not None and ax[0] in ('tup', 'lst'):
             return 'allany-axis-tuple'
-    if fname == 'numpy.repeat' and isinstance(e, NotImplementedError):
+    if fname == 'numpy.repeat' and isinstance(e, NotImplementedError) and tag.startswith('nonsingleton'):
         return 'repeat-nonsingleton'
     if fname == 'numpy.linalg.norm' and isinstance(e, NotImplementedError):
         return 'norm-ord'
-    if fname == 'numpy.compress' and isinstance(e, ValueError) and 'expected a condition of length' in msg:
+    if fname == 'numpy.compress' and isinstance(e, ValueError) and 'expected a condition of length' in msg and ('short' in tag or 'long' in tag):
         return 'compress-short-condition'
+    # argument forms that are not implemented and are refused loudly when the expression is built
+    args = node[2]
+    kw = node[3] if len(node) > 3 else {}
+    if fname == 'numpy.concatenate' and kw.get('axis') == ['lit', None] and isinstance(e, TypeError):
+        return 'concatenate-axis-none'
+    if fname == 'numpy.prod' and len(args) == 1 and 'axis' not in kw and isinstance(e, TypeError) and 'missing 1 required positional argument' in msg:
+        return 'prod-without-axis'
+    if fname == 'numpy.repeat' and len(args) == 2 and 'axis' not in kw and isinstance(e, TypeError) and 'missing 1 required positional argument' in msg:
+        return 'repeat-without-axis'
+    if fname == 'numpy.broadcast_to' and len(args) == 2 and args[1][0] == 'lit' and type(args[1][1]) is int and isinstance(e, TypeError):
+        return 'broadcast_to-int-shape'
+    if fname == 'numpy.searchsorted' and args[0][0] in ('lit', 'np') and args[0][-1] == [] and isinstance(e, ValueError) and 'need at least one array' in msg:
+        return 'searchsorted-empty-haystack'
+    if fname == 'numpy.interp' and len(args) >= 3 and 'arr' in (args[1][0], args[2][0]) and isinstance(e, TypeError) and 'no implementation found' in msg:
+        return 'interp-function-array-knots'
+    if fname in ('numpy.diagonal', 'numpy.trace') and isinstance(e, ValueError) and 'axis lengths do not match' in msg and tag == 'nonsquare':
+        return 'diagonal-of-unequal-axes'
+    if fname == 'numpy.vdot' and isinstance(e, ValueError) and 'cannot broadcast shapes' in msg and tag == 'same-size':
+        return 'vdot-different-shapes'
     return None
 
 
@@ -303,7 +322,7 @@ def compare_eig(fname, gots, refs, a):
 # ------------------------------------------------------------------ one case
 
 class Outcome:
-    __slots__ = ('status', 'key', 'what', 'outs', 'refs', 'args', 'label', 'batch')
+    __slots__ = ('status', 'key', 'what', 'outs', 'refs', 'args', 'label', 'batch', 'case')
 
     def __init__(self, status, key=None, what=None):
         self.status = status      # 'ok' | 'rejected' | 'skip-nonshape' | 'skip-undefined' | 'unsupported' | 'violation' | 'pending'
@@ -314,10 +333,24 @@ class Outcome:
         self.args = None
         self.label = None
         self.batch = None
+        self.case = None
+
+
+_CAT = {'build-raise': 'raise', 'eval-raise': 'raise', 'shape': 'mismatch', 'dtype': 'mismatch', 'value': 'mismatch', 'arity': 'mismatch', 'type': 'mismatch',
+        'accepted-invalid': 'accepted-invalid'}
 
 
 def _key(cat, case):
-    return '{}:{}:{}'.format(cat, case['func'], case.get('dyntag') or case['tag'])
+    '''category:function:input-class. The category is coarse (mismatch = shape/kind/value differs, raise = an exception at
+    build or evaluation time where numpy returns a value, accepted-invalid); an input class starting with @ is a
+    cross-function class (same root cause behind several API entries) and replaces function:class.'''
+    tag = case.get('dyntag') or case['tag']
+    if tag.startswith('@'):
+        return '{}:{}'.format(_CAT[cat], tag[1:])
+    return '{}:{}:{}'.format(_CAT[cat], case['func'], tag)
+
+
+PROTECTED_CLASSES = ('slice-clamp', 'bool-mask', 'multi-adv')  # index classes that are not re-labelled as zero-length results
 
 
 def _dyntag(ctx, case, vals):
@@ -359,6 +392,9 @@ def prepare(ctx, case):
         return Outcome('skip-nonshape', what='{}: {}'.format(type(nperr).__name__, nperr))
     if nperr is None and not all(is_finite(r) for r in refs):
         return Outcome('skip-undefined')
+    if nperr is None and not case.get('dyntag') and case['tag'] not in PROTECTED_CLASSES and not case['tag'].startswith('@') \
+            and any(0 in numpy.shape(r) for r in _flat_outputs(refs[0]) if not isinstance(r, tuple)):
+        case = dict(case, dyntag='@zero-length-result')
     # --- nutils build
     arguments = {}
 
@@ -371,12 +407,12 @@ def prepare(ctx, case):
     except Exception as e:
         if nperr is not None:
             return Outcome('rejected')
-        label = deliberate_rejection(node, e)
+        label = deliberate_rejection(node, e, case['tag'])
         if label:
             o = Outcome('unsupported')
             o.label = label
             return o
-        return Outcome('violation', _key('build-raise', case) + ':' + type(e).__name__,
+        return Outcome('violation', _key('build-raise', case),
                        'numpy returns {} but building the nutils expression raised {}: {}'.format(_describe_ref(refs[0]), type(e).__name__, str(e)[:300]))
     if nperr is not None:
         what = 'numpy rejects the call ({}: {}) but nutils built {!r}'.format(type(nperr).__name__, str(nperr)[:200], _short(built))
@@ -415,6 +451,7 @@ def prepare(ctx, case):
     out.outs = outs
     out.refs = refs
     out.args = arguments
+    out.case = case
     return out
 
 
@@ -476,10 +513,11 @@ def run_single(ctx, case):
     out = prepare(ctx, case)
     if out.status != 'pending':
         return out
+    case = out.case
     try:
         values = ctx.sample.eval(out.outs, arguments=out.args)
     except Exception as e:
-        return Outcome('violation', _key('eval-raise', case) + ':' + type(e).__name__,
+        return Outcome('violation', _key('eval-raise', case),
                        'numpy returns {} but evaluating the nutils expression raised {}: {}'.format(_describe_ref(out.refs[0]), type(e).__name__, str(e)[:300]))
     return finish(ctx, case, out, values)
 
@@ -508,7 +546,7 @@ def run_batch(ctx, cases, batch=12):
             if values is None:
                 yield c, run_single(ctx, c)
             else:
-                res = finish(ctx, c, out, values[i:i + n])
+                res = finish(ctx, out.case, out, values[i:i + n])
                 if res.status != 'ok':
                     single = run_single(ctx, c)
                     if single.status == 'ok':
